@@ -405,7 +405,8 @@ pub fn run(ctx: &Ctx, rep: &mut Report) {
                         full(hub_wrap(4, &conf.origin, &inner))
                     }
                     "origin-never-trusted" => {
-                        c2.origin = rng.pick(&[b"polygon".to_vec(), b"".to_vec(), b"Ethereum".to_vec(), b"ethereum ".to_vec()]).clone();
+                        // (the hub's own chain name is not in the trusted set of this world either)
+                        c2.origin = rng.pick(&[b"polygon".to_vec(), b"".to_vec(), b"Ethereum".to_vec(), b"ethereum ".to_vec(), HUB_CHAIN.to_vec(), HUB_CHAIN.to_vec()]).clone();
                         full(c2.payload())
                     }
                     "origin-trust-removed" => {
